@@ -119,6 +119,13 @@ def gen(rng, tier):
             if any(o.startswith("X") and (i == 0 or not seq[i - 1].startswith("A")) for i, o in enumerate(seq)):
                 continue      # X reads the buffer as a C string: only right after an append
             out.append(("pb %d %s" % (1 << 26, ";".join(seq)), {"kind": "small-scope"}))
+    # a buffer grown beyond 1 MiB, then reset / empty appends / reset: nothing the buffer does later may depend on how
+    # big it once was (memset builds the big contents; the observation prints them once)
+    for seq in (["S0,65,1200000", "R", "R", "A41"], ["S0,65,1100000", "R", "A-", "R", "A4142"], ["S0,66,2200000", "R", "A43", "R", "R", "S-1,0,3"],
+                ["S0,67,1048577", "R", "F" + "44" * 130, "R", "R"]) if tier == "quick" else (
+               ["S0,65,1200000", "R", "R", "A41"], ["S0,65,1100000", "R", "A-", "R", "A4142"], ["S0,66,2200000", "R", "A43", "R", "R", "S-1,0,3"],
+               ["S0,67,1048577", "R", "F" + "44" * 130, "R", "R"], ["S0,65,5000000", "R", "R", "R", "A41"], ["S0,65,1048576", "R", "R", "A41"]):
+        out.append(("pb %d %s" % (1 << 26, ";".join(seq)), {"kind": "big-then-reset"}))
     # two threads printing into their own buffers at the same time: sprintbuf keeps no shared state
     for nthr in ([20000, 100000] if tier == "quick" else [20000, 100000, 400000, 400000]):
         out.append(("pb %d A6162;T%d;A63" % (1 << 26, nthr), {"kind": "threads"}))
